@@ -23,7 +23,7 @@ RULE = (
     "histories; invariants on every state, integrate-vs-tables reference on every distinct state (depth<=1 quick for all inits, "
     "depth 2 for the first; all for thorough)"
 )
-REQUIRED_COVER = ["delete_with_shared_column_owner_remaining", "delete_undoes_insert", "set_ncomp_with_group", "network_connect",
+REQUIRED_COVER = ["confined_delete_with_items_outside_view", "synaptic_state_of_interleaved_edge_recorded", "delete_with_shared_column_owner_remaining", "delete_undoes_insert", "set_ncomp_with_group", "network_connect",
                   "stale_reference_observed", "simulated_with_clamp", "simulated_with_synapse"]
 ASSUMPTIONS = [
     "weaker readings (DESIGN C19): a recording/clamp/trainable naming a state of a channel deleted *afterwards* refers to an existing row; "
@@ -64,8 +64,18 @@ def _net2():
 
     net = J.Network([build.cell_of([-1, 0], [2, 1]), build.cell_of([-1, 0, 0], [2, 1, 1])])
     net.insert(HH())
-    connect(net.cell(0).branch(0).comp(0), net.cell(1).branch(1).comp(0), TestSynapse())
-    connect(net.cell(1).branch(0).comp(1), net.cell(0).branch(1).comp(0), IonotropicSynapse())
+    # five edges with interleaved types [T, I, T, I, T] and distinct per-edge states/conductances, so that the global edge index,
+    # the rank within the type and "index minus first edge of the type" all differ for the later edges
+    c = lambda ci, bi, ki: net.cell(ci).branch(bi).comp(ki)
+    connect(c(0, 0, 0), c(1, 1, 0), TestSynapse())
+    connect(c(1, 0, 1), c(0, 1, 0), IonotropicSynapse())
+    connect(c(0, 0, 1), c(1, 0, 0), TestSynapse())
+    connect(c(0, 1, 0), c(1, 2, 0), IonotropicSynapse())
+    connect(c(1, 2, 0), c(0, 0, 0), TestSynapse())
+    for gi, (k, x) in enumerate([("TestSynapse_c", 0.15), ("IonotropicSynapse_s", 0.3), ("TestSynapse_c", 0.45),
+                                 ("IonotropicSynapse_s", 0.6), ("TestSynapse_c", 0.75)]):
+        net.select(edges=[gi]).set(k, x)
+        net.select(edges=[gi]).set("TestSynapse_gC" if k.startswith("Test") else "IonotropicSynapse_gS", 2e-4 * (gi + 1))
     return net
 
 
@@ -149,6 +159,10 @@ OPS["n_group_c0"] = lambda m: m.cell(0).add_to_group("exc")
 OPS["n_rec_v_c1"] = lambda m: m.cell(1).record("v", verbose=False)
 OPS["n_rec_s_I0"] = lambda m: m.IonotropicSynapse.edge(0).record("IonotropicSynapse_s", verbose=False)
 OPS["n_rec_c_T0"] = lambda m: m.TestSynapse.edge(0).record("TestSynapse_c", verbose=False)
+OPS["n_rec_c_T1"] = lambda m: m.TestSynapse.edge(1).record("TestSynapse_c", verbose=False)
+OPS["n_rec_s_I1"] = lambda m: m.IonotropicSynapse.edge(1).record("IonotropicSynapse_s", verbose=False)
+OPS["n_clamp_c_T1"] = lambda m: m.TestSynapse.edge(1).clamp("TestSynapse_c", 0.55 * _j().ones(T), verbose=False)
+OPS["n_train_s_I1"] = lambda m: m.IonotropicSynapse.edge(1).make_trainable("IonotropicSynapse_s", verbose=False)
 OPS["n_delrec_all"] = lambda m: m.delete_recordings()
 OPS["n_delrec_c1"] = lambda m: m.cell(1).delete_recordings()
 OPS["n_stim_c0"] = lambda m: m.cell(0).branch(0).comp(0).stimulate(0.1 * _j().ones(T), verbose=False)
@@ -276,12 +290,69 @@ def invariants(m, hist, parent_hash=None, hash_=None, item=None):
                 errs.append(("I6_trainables", "index_out_of_range", f"{k} {ii.tolist()}"))
             if np.asarray(list(p.values())[0]).shape[0] != ii.shape[0]:
                 errs.append(("I6_trainables", "values_vs_groups", k))
+    # I8 deletions through a view are confined to the view
+    if hist and hist[-1] in CONFINED and item is not None:
+        par = _grandparent_hash(item["init"], hist[:-1])
+        if par is not None:
+            errs += _confined_delete(hist[-1], item["init"], hist[:-1], m)
     # I7 deletions undo their insertions
     if len(hist) >= 2 and UNDOES.get(hist[-1]) == hist[-2] and item is not None:
         gp = _grandparent_hash(item["init"], hist[:-2])
         if gp is not None and _undo_is_exact(hist[-1], gp[2]) and gp[0] != hash_:
             d = canon.diff(gp[2], canon.snapshot(m))
             errs.append(("I7_undo", f"{_opkind(hist[-1])}_does_not_undo", f"differs at {d[:5]}"))
+    return errs
+
+
+CONFINED = {
+    "delrec_b2": ("rec", lambda m: m.branch(2)), "delstim_b2": ("stim", lambda m: m.branch(2)),
+    "delclamp_b1": ("clamp", lambda m: m.branch(1)), "deltrain_b0": ("train", lambda m: m.branch(0)),
+    "n_delrec_c1": ("rec", lambda m: m.cell(1)), "n_delclamp_c1": ("clamp", lambda m: m.cell(1)),
+}
+
+
+def _confined_delete(op, init, parent_hist, m):
+    """Reference semantics of delete_* through a view: exactly the items that belong to the view's compartments go away."""
+    import sys
+
+    mod = sys.modules[__name__]
+    kind, viewfn = CONFINED[op]
+    parent = explorer.replay(mod, init, parent_hist)
+    try:
+        pv = viewfn(parent)
+        rows = set(int(i) for i in pv._nodes_in_view)
+        erows = set(int(i) for i in pv._edges_in_view)
+    except Exception:
+        return []
+    errs = []
+    comp_states, edge_states = parent._get_state_names()
+    if kind == "rec":
+        before = [(str(s), int(i)) for s, i in zip(parent.recordings.state, parent.recordings.rec_index)] if len(parent.recordings) else []
+        want = [(s, i) for s, i in before if (i not in erows if s in edge_states else i not in rows)]
+        got = [(str(s), int(i)) for s, i in zip(m.recordings.state, m.recordings.rec_index)] if len(m.recordings) else []
+        lost = [x for x in want if x not in got]
+        kept = [x for x in got if x not in want]
+        if lost:
+            errs.append(("I8_confined_delete", "delete_recordings_removed_rows_outside_view", f"lost {lost} (view rows {sorted(rows)})"))
+        if kept:
+            errs.append(("I8_confined_delete", "delete_recordings_kept_rows_inside_view", f"kept {kept}"))
+    elif kind in ("stim", "clamp"):
+        for k in parent.externals:
+            if (k == "i") != (kind == "stim"):
+                continue
+            bi = [int(i) for i in np.asarray(parent.external_inds[k])]
+            want = [i for i in bi if i not in (erows if k in edge_states else rows)]
+            got = [int(i) for i in np.asarray(m.external_inds.get(k, []))]
+            if sorted(want) != sorted(got):
+                errs.append(("I8_confined_delete", f"delete_{kind}_not_confined_to_view", f"{k}: before {bi}, view rows {sorted(rows)}, after {got}"))
+    elif kind == "train":
+        before = [(list(p)[0], np.asarray(i).tolist()) for p, i in zip(parent.trainable_params, parent.indices_set_by_trainables)]
+        got = [(list(p)[0], np.asarray(i).tolist()) for p, i in zip(m.trainable_params, m.indices_set_by_trainables)]
+        for key, inds in before:
+            flat = [x for r in inds for x in (r if isinstance(r, list) else [r]) if x >= 0]
+            if key in parent.nodes.columns and not any(x in rows for x in flat):
+                if (key, inds) not in got:
+                    errs.append(("I8_confined_delete", "delete_trainables_removed_param_outside_view", f"{key} {inds}"))
     return errs
 
 
@@ -328,6 +399,8 @@ def _grandparent_hash(init, hist):
 def cover_of(m, hist):
     out = []
     last = hist[-1]
+    if last in CONFINED and (len(m.recordings) or m.externals or m.trainable_params):
+        out.append("confined_delete_with_items_outside_view")
     if last in UNDOES and len(hist) >= 2 and UNDOES[last] == hist[-2]:
         out.append("delete_undoes_insert")
     if "del_" in last and last.split("_")[1] in ("Na", "K", "Km", "CaL", "CaT"):
@@ -425,6 +498,8 @@ def simulate_state(m, hist):
             res["errs"].append(("I9_simulate", "row_differs_from_tables", f"row {r} {st}@{ri}: rel err {err}; got {got[r].tolist()} want {want.tolist()}"))
             break
     res["digests"].append(digest(np.round(got, 7).tolist()))
+    if len(mm.edges) and any(st in edge_states and int(ri) > 1 for st, ri in rows):
+        res["cover"].append("synaptic_state_of_interleaved_edge_recorded")
     if any(k != "i" for k in mm.externals):
         res["cover"].append("simulated_with_clamp")
     if len(mm.edges):
